@@ -1,16 +1,20 @@
 // C07 harness: memories behave as arrays with program-order port semantics at any latency.
 //
-// usage: c07 <seed> <ncases> <ncycles> <mode>
-//   mode 0  main stream: no target device, power-on contents (none / zero / random), memoryResetType NONE
+// usage: c07 <seed> <ncases> <ncycles> <mode> [salt]
+//   mode 0  main stream: no target device, power-on contents (none / zero / random / partial), memoryResetType NONE, clock with or
+//           without synchronous reset (with reset: cycle 0 is a reset cycle, no write is issued in it)
 //   mode 1  Intel devices (Arria 10 / Cyclone 10), mode 2 Xilinx devices (Kintex Ultrascale / Zynq-7): latency as the device
 //           requests for the memory type (or explicit)
 //   mode 3  undefined stream: address / enable / data pins carry undefined bits (model correspondence only)
 //   mode 4  out-of-range stream: non-power-of-two depths with addresses >= depth (model correspondence only; outside the statement)
 //   mode 5  reset-initialised contents: memoryResetType SYNCHRONOUS, initZero()/power-on state re-written during reset
 //   mode 6  guard stream: type/latency/port-count combinations MemoryGroup::verify rejects, three write ports, ROMs
+//   mode 7  observation stream: synchronous reset and writes already issued in cycle 0, i.e. while the reset is still asserted at the
+//           first clock edge (outside the statement: the driver only counts how often post-processing drops such a write)
 //
 // One block per case:
-//   case <id> depth= width= aw= L= type= init= dev= mode= idle= memreset= ports=<n>
+//   case <id> depth= width= aw= L= type= init= dev= mode= idle= memreset= noreset= initnet= explicit= resetcycles= ports=<n>
+//   net mems= memports= ext=<vendor primitive:count,...>   what the post-processed netlist contains
 //   port <i> R share=<j|-> xor=<bits|->   read port; address pin shared with port j (declared earlier) or own; pin = regs(data ^ xor)
 //   port <i> W cond=<0|1> rmw=<j|-> share=<j|->   write port; data = pin (xor async data of read port j)
 //   mem <w0> <w1> ...                 power-on contents, one 0/1/x string per word
@@ -212,8 +216,8 @@ static CaseCfg genCase(vh::Rng &rng, int mode) {
 	c.memReset = mode == 5;
 	// with a synchronous reset the first rising clock edge happens under reset (Clock::getMinResetCycles() >= 1): cycle 0 is a
 	// reset cycle, no write is issued in it (so every write port has an enable); without reset the stimulus starts right away
-	c.noReset = !c.memReset && rng.chance(1, 2);
-	c.idle = c.noReset ? 0 : 1;
+	c.noReset = !c.memReset && mode != 7 && rng.chance(1, 2);
+	c.idle = (c.noReset || mode == 7) ? 0 : 1;
 	size_t nR = 1 + rng.below(3), nW = 1 + rng.below(2);
 	if (mode == 6) {
 		switch (rng.below(4)) {
@@ -240,7 +244,7 @@ static CaseCfg genCase(vh::Rng &rng, int mode) {
 		if (p.share >= 0 && c.ports[p.share].share >= 0) p.share = c.ports[p.share].share;
 		if (!p.isWrite && c.L > 0 && rng.chance(1, 4)) p.outXor = randBits(rng, c.width);
 		if (p.isWrite) {
-			p.cond = c.noReset ? rng.chance(3, 4) : true;
+			p.cond = (c.noReset || mode == 7) ? rng.chance(3, 4) : true;
 			std::vector<int> earlierReads; for (size_t j = 0; j < i; j++) if (!c.ports[j].isWrite) earlierReads.push_back((int) j);
 			if (!earlierReads.empty() && rng.chance(1, 2)) p.rmw = earlierReads[rng.below(earlierReads.size())];
 		}
@@ -334,13 +338,14 @@ int main(int argc, char **argv) {
 	size_t ncases = vh::argU64(argc, argv, 2, 10);
 	size_t ncycles = vh::argU64(argc, argv, 3, 100);
 	int mode = (int) vh::argU64(argc, argv, 4, 0);
+	uint64_t salt = vh::argU64(argc, argv, 5, 0);   // further streams of the same mode
 	// gatery may drop debug files into the cwd
 	auto tmp = std::filesystem::temp_directory_path() / ("c07_" + std::to_string(getpid()));
 	std::filesystem::create_directories(tmp); std::filesystem::current_path(tmp);
-	vh::Rng master(seed * 1000003 + mode * 7919 + 17);
+	vh::Rng master(seed * 1000003 + mode * 7919 + salt * 104729 + 17);
 	for (size_t i = 0; i < ncases; i++) {
 		vh::Rng rng = master.fork();
-		runCase(std::to_string(mode) + "." + std::to_string(i), rng, ncycles, mode);
+		runCase(std::to_string(mode) + (salt ? "s" + std::to_string(salt) : std::string()) + "." + std::to_string(i), rng, ncycles, mode);
 	}
 	std::filesystem::current_path("/"); std::error_code ec; std::filesystem::remove_all(tmp, ec);
 	return 0;
